@@ -21,6 +21,7 @@ Record lcase := mkCase {
   c_draws : list Z;
   c_horizon : Z;
   c_fuel : Z;
+  c_sink_delay : list Z;
   (* observed *)
   o_writes : list (Z * Z);
   o_closed : Z;
@@ -29,7 +30,7 @@ Record lcase := mkCase {
 Definition zz_eqb (a b : Z * Z) : bool := (fst a =? fst b) && (snd a =? snd b).
 
 Definition model_run (c : lcase) : option link :=
-  run_quiet (Z.to_nat (c_fuel c)) (c_horizon c) (link_init (c_chain c) (mk_src (c_src c) 0) (c_draws c)).
+  run_quiet (Z.to_nat (c_fuel c)) (c_horizon c) (link_init_slow (c_chain c) (mk_src (c_src c) 0) (c_draws c) (c_sink_delay c)).
 
 Definition closed_z (l : link) : Z := match l_sink_closed l with Some t => t | None => -1 end.
 
